@@ -457,6 +457,8 @@ void do_full_action(C& c, const SutAction& a, Last& last, SutView& v) {
 #if SUT_TYPED
 		if (a.mask[30]) { typed_change_with(c, a.a, PLK::unpack(a.payload)); last.result = 1; break; }
 #endif
+		// mask[29]: re-target the outstanding request, passing ITS OWN payload object as the argument (aliasing)
+		if (a.mask[29] && static_cast<bool>(c.request()) && c.request().payload()) { c.changeWith(a.a, *c.request().payload()); last.result = 1; break; }
 		c.changeWith(a.a, PLK::unpack(a.payload));
 #else
 		c.changeTo(a.a);
